@@ -181,7 +181,9 @@ CLAIMED = {
           "markers written [name k=v ...] or [name=v k=v ...] with decimal integers, decimals (ParseFloat of the text), true/false, quoted strings and bare words - "
           "the attribute of every closed marker carries exactly the property map of what was written (plain_form_written, "
           "short_form_written: parseAttributeMarker on every such written form). "
-          "Not proved: self-closing and replacement markers, the character prefix and trimmed "
+          "Self-closing markers [name k=v .../] are items of the same documents (one attribute of length 0 at the marker's "
+          "position, with its properties; hypothesis: no blank directly after them). "
+          "Not proved: replacement markers, the whitespace-trimming rule of self-closing markers, the character prefix and trimmed "
           "edge blanks inside that round trip. Correspondence: documents from a grammar, "
           "model vs implementation, and for structured documents the implementation vs the meaning the generator knows "
           "by construction (independent oracle).",
